@@ -992,7 +992,9 @@ class Node:
 
         assert not self._children
         for child in other.children:
-            kind = getattr(child, "_kind", None)  # only TypedNodes have that slot
+            # Only TypedNodes have that slot. (Looked up on the class: with
+            # `forward_attrs` a plain node would answer with `child.data._kind`.)
+            kind = child._kind if hasattr(type(child), "_kind") else None
             if kind is None:
                 new_child = self.add_child(child.data, data_id=child._data_id)
             else:  # typed nodes: a copy keeps the kind of its source
